@@ -31,6 +31,7 @@ type Replay struct {
 }
 
 type ReplayResult struct {
+	CompileFailed bool // stage 2: the real emitted source did not build
 	Ran      bool
 	Panicked bool
 	Assume   bool
